@@ -153,6 +153,27 @@ def R1_outflows(run):
                         t0, f0 = strip(rt[1][0]), strip(rf[1][0])
                         ok = t0[0] == "bin" and t0[1] in ("Sub", "SubWithOverflow") and is_param(t0[2], "existing_amount") and is_param(t0[3], "new_amount") and const_val(rt[1][1]) == 0 and \
                             f0[0] == "bin" and is_param(f0[2], "new_amount") and is_param(f0[3], "existing_amount") and const_val(rf[1][1]) == 1
+    if not ok and not A.atoms(ci):
+        # branch-free form: (|existing - new|, new >= existing)
+        pvc = prov_of(ci)
+        for bi, bb in enumerate(ci.blocks):
+            if bb["t"]["k"] == "ret":
+                r = pvc.local(0, bi, len(bb["s"]))
+                if r[0] == "tuple" and len(r[1]) == 2:
+                    d_, f_ = strip(r[1][0]), strip(r[1][1])
+                    isdiff = d_[0] == "call" and d_[1].endswith("abs_diff") and {arg_name(x) or (strip(x)[1] if strip(x)[0] == "param" else None) for x in d_[2]} == {"existing_amount", "new_amount"}
+                    flag = False
+                    if f_[0] == "bin" and f_[1] in A.SWAP:
+                        for (o, x, y) in ((f_[1], f_[2], f_[3]), (A.SWAP[f_[1]], f_[3], f_[2])):
+                            if o == "Ge" and is_param(x, "new_amount") and is_param(y, "existing_amount"):
+                                flag = True
+                    elif f_[0] == "un" and f_[1] == "Not":
+                        g_ = strip(f_[2])
+                        if g_[0] == "bin" and g_[1] in A.SWAP:
+                            for (o, x, y) in ((g_[1], g_[2], g_[3]), (A.SWAP[g_[1]], g_[3], g_[2])):
+                                if o == "Gt" and is_param(x, "existing_amount") and is_param(y, "new_amount"):
+                                    flag = True
+                    ok = isdiff and flag
     run.check("R1", "reposition-net-formula", ok, "calculate_token_delta is not (existing > new) ? (existing - new, to user) : (new - existing, from user)", loc=ci.loc(),
               detail="existing > new => (existing - new, false) else (new - existing, true)")
 
